@@ -1,12 +1,27 @@
 import Thanos.Common.Parse
 import Thanos.Model.AggrChunk
+import Thanos.Model.Downsample
 /-
   Line-protocol driver of the `downsample` family (C36–C39).
   One request per line, one answer per line; every line is self-contained.
+
+  C39:  aggr.enc / aggr.get / aggr.rt                      (see harness/cmd/downsample/c39.go)
+  C36–C38 (harness/cmd/downsample/ds.go has the same grammar):
+    samples   = `-` | s,s,…          s = <t>:<v> | <t>:<v>*<n>@<step>   v = decimal integer | n (NaN) | s (stale NaN)
+    list      = `-` | <t>:<v>,…
+    chunk     = <mint>:<maxt>/<count list>/<sum list>/<min list>/<max list>/<counter list>
+    chunks    = `-` | chunk|chunk|…
+    ds.raw  <mode> <r> <nc> <samples>                 -> chunks | panic          (mode: auto | man; ignored here)
+    ds.read <r> <nc> <samples>                        -> count;sum;min;max;counter lists read through the querier
+    ds.aggr <mode> <r1> <nc1> <r2> <nc2> <samples>    -> chunks | invalid-range | hang | panic
+    ds.ctr  <r1> <nc1> <r2> <nc2> <samples>           -> <level-1 counter read-back>;<level-2 counter read-back> | …
+    ds.apply <list>|<list>|…                          -> <read-back list>           (ApplyCounterResetsSeriesIterator)
+    ds.cs    <list>|<list>|…                          -> <read-back list>           (chunkSeriesIterator)
 -/
 open Thanos Thanos.Parse
 
 namespace Thanos.Driver.Downsample
+open Thanos.Downsample
 
 def bytesToNat (bs : List UInt8) : List Nat := bs.map (·.toNat)
 def natToBytes (ns : List Nat) : List UInt8 := ns.map UInt8.ofNat
@@ -27,6 +42,112 @@ def showRes : AggrChunk.Res → String
   | .notExist => "notexist"
   | .invalid => "invalid"
 
+def parseVal (v : String) : Option (Option Int) :=
+  if v = "n" ∨ v = "s" then some none else (parseInt? v).map some
+
+/-- `<t>:<v>` or the run `<t>:<v>*<n>@<step>` -/
+def parseRawItem (x : String) : Option (List Raw) :=
+  match splitChar ':' x with
+  | [t, v] => do
+    let t ← parseInt? t
+    match splitChar '*' v with
+    | [v] => do
+      let v ← parseVal v
+      pure [(t, v)]
+    | [v, run] =>
+      match splitChar '@' run with
+      | [n, step] => do
+        let v ← parseVal v
+        let n ← parseNat? n
+        let step ← parseInt? step
+        pure ((List.range n).map fun (k : Nat) => (t + Int.ofNat k * step, v))
+      | _ => none
+    | _ => none
+  | _ => none
+
+def parseRaw (s : String) : Option (List Raw) :=
+  ((listOf ',' s).mapM parseRawItem).map List.flatten
+
+def parsePts (s : String) : Option (List Pt) :=
+  (listOf ',' s).mapM fun x =>
+    match splitChar ':' x with
+    | [t, v] => do
+      let t ← parseInt? t
+      let v ← parseInt? v
+      pure (t, v)
+    | _ => none
+
+def parseChunkLists (s : String) : Option (List (List Pt)) :=
+  (listOf '|' s).mapM parsePts
+
+def showPts (l : List Pt) : String := joinWith "," (l.map fun p => s!"{p.1}:{p.2}")
+
+def showChunk (c : Chunk) : String :=
+  s!"{c.mint}:{c.maxt}/{showPts c.count}/{showPts c.sum}/{showPts c.min}/{showPts c.max}/{showPts c.counter}"
+
+def showChunks (cs : List Chunk) : String := joinWith "|" (cs.map showChunk)
+
+def showAggrRes : AggrRes → String
+  | .ok cs => showChunks cs
+  | .invalidRange => "invalid-range"
+  | .hang => "hang"
+  | .panic => "panic"
+
+/-- the size test `downsampleAggrLoop` uses in the tree under check (regenerated fact
+    `aggrLoopBatchSize`, obligation in Props/C38.lean) -/
+def clampNow : Bool := false
+
+def readBack (cs : List Chunk) : String :=
+  let cnt := chunkSeriesIter (cs.map (·.count))
+  let sum := chunkSeriesIter (cs.map (·.sum))
+  let mn := chunkSeriesIter (cs.map (·.min))
+  let mx := chunkSeriesIter (cs.map (·.max))
+  let ctr := (applyResets (cs.map (·.counter))).1
+  s!"{showPts cnt};{showPts sum};{showPts mn};{showPts mx};{showPts ctr}"
+
+def handleDs : List String → String
+  | ["ds.raw", _, r, nc, ss] =>
+    match parseInt? r, parseNat? nc, parseRaw ss with
+    | some r, some nc, some data =>
+      match downsampleRaw data r nc with
+      | some cs => showChunks cs
+      | none => "panic"
+    | _, _, _ => "bad-op"
+  | ["ds.read", r, nc, ss] =>
+    match parseInt? r, parseNat? nc, parseRaw ss with
+    | some r, some nc, some data =>
+      match downsampleRaw data r nc with
+      | some cs => readBack cs
+      | none => "panic"
+    | _, _, _ => "bad-op"
+  | ["ds.aggr", _, r1, nc1, r2, nc2, ss] =>
+    match parseInt? r1, parseNat? nc1, parseInt? r2, parseNat? nc2, parseRaw ss with
+    | some r1, some nc1, some r2, some nc2, some data =>
+      match downsampleRaw data r1 nc1 with
+      | some cs => showAggrRes (downsampleAggrLoop clampNow cs r2 nc2)
+      | none => "panic"
+    | _, _, _, _, _ => "bad-op"
+  | ["ds.ctr", r1, nc1, r2, nc2, ss] =>
+    match parseInt? r1, parseNat? nc1, parseInt? r2, parseNat? nc2, parseRaw ss with
+    | some r1, some nc1, some r2, some nc2, some data =>
+      match downsampleRaw data r1 nc1 with
+      | some cs =>
+        let l1 := (applyResets (cs.map (·.counter))).1
+        match downsampleAggrLoop clampNow cs r2 nc2 with
+        | .ok cs2 => s!"{showPts l1};{showPts (applyResets (cs2.map (·.counter))).1}"
+        | e => s!"{showPts l1};{showAggrRes e}"
+      | none => "panic"
+    | _, _, _, _, _ => "bad-op"
+  | ["ds.apply", cl] =>
+    match parseChunkLists cl with
+    | some cs => showPts (applyResets cs).1
+    | none => "bad-op"
+  | ["ds.cs", cl] =>
+    match parseChunkLists cl with
+    | some cs => showPts (chunkSeriesIter cs)
+    | none => "bad-op"
+  | _ => "bad-op"
+
 def handle : List String → String
   | "aggr.enc" :: subs =>
     match subs.mapM parseSub with
@@ -40,6 +161,6 @@ def handle : List String → String
     match [s0, s1, s2, s3, s4].mapM parseSub, parseNat? t with
     | some cs, some t => showRes (AggrChunk.get false (AggrChunk.encode cs) t)
     | _, _ => "bad-op"
-  | _ => "bad-op"
+  | toks => handleDs toks
 
 end Thanos.Driver.Downsample
